@@ -27,4 +27,11 @@ macro_rules! aw {
 pub fn tasks_spawned() -> Option<usize> {
     None
 }
+pub fn run_tasks() {
+    block_on(async {
+        for _ in 0..8 {
+            tokio::task::yield_now().await;
+        }
+    })
+}
 include!("/verif/kani/proto/src/body.rs");
